@@ -104,11 +104,7 @@ Definition check_members (g : config) (req : request) (base : N) (card : N) (ins
     else v_diff [card_of g req fa]
   end.
 
-Definition check_set (ts : list N) : list N :=
-  match tok_config ts with
-  | Some (g, r) =>
-    match tok_request r with
-    | Some (req, impl) =>
+Definition check_set_on (g : config) (req : request) (impl : list N) : list N :=
       if negb (forallb loads (g_policies g)) then
         match impl with [7] => v_ok 0 | _ => v_diff [7] end
       else
@@ -135,18 +131,12 @@ Definition check_set (ts : list N) : list N :=
         | None => v_bad
         end
       | _ => v_bad
-      end
-    | None => v_bad
-    end
-  | None => v_bad
-  end.
+      end.
 
 (* drained pool: every yiaddr distinct and in the set, and the whole set was handed out *)
-Definition check_drain (ts : list N) : list N :=
-  match tok_config ts with
-  | Some (g, r) =>
-    match tok_request r with
-    | Some (req, n :: r2) =>
+Definition check_drain_on (g : config) (req : request) (impl : list N) : list N :=
+    match impl with
+    | n :: r2 =>
       match tok_take n r2 with
       | Some (ys, [e]) =>
         let sorted := sort_n ys in
@@ -159,13 +149,59 @@ Definition check_drain (ts : list N) : list N :=
       | _ => v_bad
       end
     | _ => v_bad
+    end.
+
+(* ---- known finding, class 2: the same apply-* key more than once --------
+   erbium.conf(5) says apply-address / apply-subnet "can be provided multiple
+   times"; in a YAML mapping a repeated key keeps only its last value
+   (yaml-rust), so all but the last item of each kind are silently dropped.
+   For such configurations the implementation is compared with the
+   configuration as YAML delivers it; if that agrees the case is reported as
+   known finding 2, otherwise with its own verdict. *)
+Definition kind_of (i : aitem) : N :=
+  match i with AAddr _ => 0 | ARange _ _ => 1 | ASubnet _ _ => 2 end.
+Fixpoint last_of_kind (l : list aitem) : list aitem :=
+  match l with
+  | [] => []
+  | i :: r => if existsb (fun j => kind_of j =? kind_of i) r then last_of_kind r else i :: last_of_kind r
+  end.
+Fixpoint yaml_view (c : cpolicy) : cpolicy :=
+  match c with
+  | CPolicy sn ch mo ao ad kids =>
+    CPolicy sn ch mo ao (last_of_kind ad)
+      ((fix go (cs : list cpolicy) : list cpolicy :=
+          match cs with [] => [] | d :: r => yaml_view d :: go r end) kids)
+  end.
+Fixpoint has_dup (c : cpolicy) : bool :=
+  match c with
+  | CPolicy _ _ _ _ ad kids =>
+    negb (lenN (last_of_kind ad) =? lenN ad)
+    || (fix any (cs : list cpolicy) : bool :=
+          match cs with [] => false | d :: r => has_dup d || any r end) kids
+  end.
+
+(* re-run a check on the configuration as YAML delivers it *)
+Definition with_yaml_view (check : config -> request -> list N -> list N) (ts : list N) : list N :=
+  match tok_config ts with
+  | Some (g, r) =>
+    match tok_request r with
+    | Some (req, impl) =>
+      if existsb has_dup (g_policies g) then
+        let g' := {| g_dns := g_dns g; g_search := g_search g; g_portal := g_portal g;
+                     g_addresses := g_addresses g; g_policies := map yaml_view (g_policies g) |} in
+        match check g' req impl with
+        | [0; _] => v_known 2
+        | v => v
+        end
+      else check g req impl
+    | None => v_bad
     end
   | None => v_bad
   end.
 
 Definition check_C02 (ts : list N) : list N :=
   match ts with
-  | 1 :: r => check_set r
-  | 2 :: r => check_drain r
+  | 1 :: r => with_yaml_view check_set_on r
+  | 2 :: r => with_yaml_view check_drain_on r
   | _ => v_bad
   end.
